@@ -13,9 +13,12 @@ SP = "space.rs"
 import os
 from .. import verus
 SPEC20 = os.path.join(extract.VERIF, "contracts", "c20.vspec")
-LAYOUT20 = [("struct", "geometry.rs", "Sphere"), ("struct", "bounding_sphere.rs", "Welzl"), ("text", "text specs"),
+LAYOUT20 = [("struct_keep", "space.rs", "Space", "VxSpace", ["cdim"]), ("text", "text grid specs"), ("impl", "impl VxSpace", [("space.rs", "Space::get_cid")]),
+            ("struct", "geometry.rs", "Sphere"), ("struct", "bounding_sphere.rs", "Welzl"), ("text", "text specs"),
             ("impl", "impl Welzl", [("bounding_sphere.rs", "Welzl::bounding_sphere_recursive"), ("bounding_sphere.rs", "Welzl::bounding_sphere@BoundingSphereSolver")])]
 FNS20 = {
+    "get_cid": "get_cid.machine_integers_row_major_index_in_range_none_iff_outside_no_overflow_below_2_32_cells",
+    "lemma_row_major_in_range": "get_cid.lemma.row_major_index_in_range",
     "bounding_sphere_recursive": "welzl.recursion_terminates_never_panics_restores_both_work_vectors_and_equals_the_functional_spec",
     "bounding_sphere": "welzl.entry_point_is_the_recursion_on_all_points_with_empty_boundary",
     "lemma_result_is_sphere_through_input_points": "welzl.lemma.result_is_the_sphere_through_at_most_four_of_the_input_points",
@@ -23,7 +26,7 @@ FNS20 = {
     "lemma_support_bounded": "welzl.lemma.support_is_bounded_by_the_number_of_points",
     "witness_contracts_are_satisfiable": "welzl.witness.contracts_are_satisfiable",
 }
-UNIT20 = "bounding_sphere::Welzl::{bounding_sphere_recursive, bounding_sphere} (Verus, bodies verbatim)"
+UNIT20 = "space::Space::get_cid, bounding_sphere::Welzl::{bounding_sphere_recursive, bounding_sphere} (Verus, bodies verbatim)"
 
 
 def welzl_verus(tier):
@@ -413,7 +416,8 @@ def run(tier, seed):
                         "(read off its match arms, not proved) and such a sphere contains no point (E2 obligation C20.contains.placeholder_sphere_of_radius_zero_contains_no_point)",
                         "NOT proved for Welzl: that the result contains all points and is minimal (Welzl's lemma: geometry of minimal spheres) - bounded stand-in only",
                         "A-REAL for the E2 obligations: ceil / floor / division over the reals - the float evaluation of `rel / width * cdim` is not analysed",
-                        "u32 / i32 wrap-around in get_cid and get_r_ring is not modelled (grids with fewer than 2^32 cells)",
+                        "get_cid over MACHINE integers is proved in Verus under the precondition cdim.x*cdim.y*cdim.z <= u32::MAX (no overflow, casts exact); that Space::new establishes this precondition "
+                        "(it casts ceil(width/max_cell_width) to u32) is NOT proved; the i32/u32 arithmetic of get_r_ring (cid decoding, i as i32 + di) is not modelled",
                         "NOT decided: the ring-by-ring search itself (BinaryHeap bookkeeping, the termination test, get_r_ring enumerating exactly the Chebyshev ring) - iterator / heap "
                         "code outside E1/E2; Welzl's minimality and Epos6's containment for all inputs (recursion over Vec, HashSet). Both are covered by the BOUNDED stand-ins only",
                         "Sphere::{from_two/three/four_points, extend, contains} carry their own contracts under C19"],
